@@ -305,7 +305,7 @@ fn scenario_framing(args: &Args, report: &mut Report) {
                             (scrape_req(&ts.iter().map(|t| ct[*t]).collect::<Vec<_>>(), ""), None, ts)
                         };
                         let call = TICK.fetch_add(1, Ordering::SeqCst);
-                        let res = c.request(&bytes, 4000);
+                        let res = c.request(&bytes, 15_000);
                         let ret = TICK.fetch_add(1, Ordering::SeqCst);
                         let parsed = match res {
                             Ok(rp) => classify(&rp.body),
@@ -325,7 +325,7 @@ fn scenario_framing(args: &Args, report: &mut Report) {
         if let Ok(mut c) = Conn::open(tracker.v4, Some(IpAddr::V4(Ipv4Addr::new(127, 0, 8, 200)))) {
             for t in 0..2 {
                 // max_scrape may be small: one hash per request
-                let rp = c.request(&scrape_req(&[ct[t]], ""), 3000).ok().and_then(|x| classify(&x.body).ok());
+                let rp = c.request(&scrape_req(&[ct[t]], ""), 15_000).ok().and_then(|x| classify(&x.body).ok());
                 if !cfg.keep_alive {
                     c = match Conn::open(tracker.v4, Some(IpAddr::V4(Ipv4Addr::new(127, 0, 8, 200)))) {
                         Ok(c) => c,
@@ -431,13 +431,13 @@ fn scenario_buffers(args: &Args, report: &mut Report) {
     let n = max_peers + 5;
     let h = hash_n(0x74, 0, 1);
     for k in 0..n {
-        if c.request(&announce_req(&h, 1 + k as u16, "started", 1, Some(1), "", ""), 3000).is_err() {
+        if c.request(&announce_req(&h, 1 + k as u16, "started", 1, Some(1), "", ""), 15_000).is_err() {
             report.inconclusive("set-up announce failed");
             return;
         }
     }
     report.eval();
-    match c.request(&announce_req(&h, 65000, "started", 1, None, "", ""), 4000) {
+    match c.request(&announce_req(&h, 65000, "started", 1, None, "", ""), 15_000) {
         Ok(rp) => match classify(&rp.body) {
             Ok(Reply::Announce { peers4, peers6, .. }) => {
                 let got = peers4.len() + peers6.len();
@@ -477,7 +477,7 @@ fn scenario_buffers(args: &Args, report: &mut Report) {
     for (t, hh) in hashes.iter().enumerate().take(populate) {
         for k in 0..per {
             let q = format!("GET /announce?info_hash={}&peer_id=-VF0001-abcdefghijkl&port={}&uploaded=0&downloaded=0&left=1&numwant=1&compact=1 HTTP/1.1\r\n\r\n", String::from_utf8_lossy(hh), 1 + k);
-            if c.request(q.as_bytes(), 3000).is_err() {
+            if c.request(q.as_bytes(), 15_000).is_err() {
                 report.inconclusive(format!("set-up announce for scrape torrent {} failed", t));
                 return;
             }
@@ -493,7 +493,7 @@ fn scenario_buffers(args: &Args, report: &mut Report) {
             continue;
         }
         report.eval();
-        match c.request(&req, 4000) {
+        match c.request(&req, 15_000) {
             Ok(rp) => match classify(&rp.body) {
                 Ok(Reply::Scrape(files)) => {
                     if files.len() != n_h {
@@ -566,7 +566,7 @@ fn scenario_address(args: &Args, report: &mut Report) {
                 (String::new(), bind_ip)
             };
             let extra = *r.pick(&["", "&ip=9.9.9.9", "&ipv4=9.9.9.9&ipv6=%3A%3A9"]);
-            let rp = c.request(&announce_req(&h, port, "started", 1, Some(50), extra, &headers), 3000);
+            let rp = c.request(&announce_req(&h, port, "started", 1, Some(50), extra, &headers), 15_000);
             report.eval();
             if let Err(e) = rp {
                 report.violation("http.live.announce_failed", "address", format!("{:?}", e), case.clone());
@@ -596,7 +596,7 @@ fn scenario_address(args: &Args, report: &mut Report) {
                     } else {
                         (String::new(), bind_ip)
                     };
-                    let rp = c.request(&announce_req(&h, port, "started", 1, Some(50), "", &headers), 3000);
+                    let rp = c.request(&announce_req(&h, port, "started", 1, Some(50), "", &headers), 15_000);
                     report.eval();
                     if let Err(e) = rp {
                         report.violation("http.live.announce_failed", "address", format!("request {} on a keep-alive connection: {:?}", j, e), case.clone());
@@ -627,7 +627,7 @@ fn scenario_address(args: &Args, report: &mut Report) {
                 (String::new(), bind_ip)
             };
             let obs_port = 64000 + round as u16;
-            let rp = c.request(&announce_req(&h, obs_port, "started", 1, Some(100), "", &headers), 3000);
+            let rp = c.request(&announce_req(&h, obs_port, "started", 1, Some(100), "", &headers), 15_000);
             report.eval();
             let expected = if obs_ip.is_ipv4() { &exp4 } else { &exp6 };
             match rp.map_err(|e| format!("{:?}", e)).and_then(|x| classify(&x.body)) {
@@ -641,7 +641,7 @@ fn scenario_address(args: &Args, report: &mut Report) {
                 other => report.violation("http.live.wrong_reply_kind", "address", format!("{:?}", other), case.clone()),
             }
             let mut c2 = Conn::open(target, Some(bind_ip)).unwrap();
-            let _ = c2.request(&announce_req(&h, obs_port, "stopped", 1, Some(0), "", &headers), 3000);
+            let _ = c2.request(&announce_req(&h, obs_port, "stopped", 1, Some(0), "", &headers), 15_000);
         }
         if round == 0 {
             report.sample(json!({"proxy": proxy, "expected_v4": format!("{:?}", exp4), "expected_v6": format!("{:?}", exp6)}));
@@ -677,7 +677,7 @@ fn scenario_access(args: &Args, report: &mut Report) {
     let mut announce = |report: &mut Report, h: &[u8; 20], listed: bool, phase: &str| {
         port += 1;
         let mut c = Conn::open(tracker.v4, Some(ip)).unwrap();
-        let rp = c.request(&announce_req(h, port, "started", 1, None, "", ""), 3000).map_err(|e| format!("{:?}", e)).and_then(|x| classify(&x.body));
+        let rp = c.request(&announce_req(h, port, "started", 1, None, "", ""), 15_000).map_err(|e| format!("{:?}", e)).and_then(|x| classify(&x.body));
         report.eval();
         match (&rp, permitted(listed)) {
             (Ok(Reply::Announce { .. }), true) | (Ok(Reply::Failure(_)), false) => {}
@@ -686,7 +686,7 @@ fn scenario_access(args: &Args, report: &mut Report) {
     };
     let scrape1 = |h: &[u8; 20]| -> Option<usize> {
         let mut c = Conn::open(tracker.v4, Some(ip)).ok()?;
-        match c.request(&scrape_req(&[*h], ""), 3000).ok().and_then(|x| classify(&x.body).ok()) {
+        match c.request(&scrape_req(&[*h], ""), 15_000).ok().and_then(|x| classify(&x.body).ok()) {
             Some(Reply::Scrape(f)) if f.len() == 1 => Some(f[0].1 + f[0].2),
             _ => None,
         }
@@ -773,7 +773,7 @@ fn scenario_expiry(args: &Args, report: &mut Report) {
     for (h, n, left) in cases.iter() {
         for k in 0..*n {
             let mut c = Conn::open(tracker.v4, Some(ip)).unwrap();
-            if c.request(&announce_req(h, 3000 + k as u16, "started", *left, Some(0), "", ""), 3000).is_err() {
+            if c.request(&announce_req(h, 3000 + k as u16, "started", *left, Some(0), "", ""), 15_000).is_err() {
                 report.inconclusive("set-up announce failed");
                 return;
             }
@@ -786,11 +786,11 @@ fn scenario_expiry(args: &Args, report: &mut Report) {
     }
     {
         let mut c = Conn::open(tracker.v4, Some(ip)).unwrap();
-        let _ = c.request(&announce_req(&cases[0].0, 3000, "", 0, Some(0), "", ""), 3000);
+        let _ = c.request(&announce_req(&cases[0].0, 3000, "", 0, Some(0), "", ""), 15_000);
     }
     let scrape1 = |h: &[u8; 20]| -> Option<usize> {
         let mut c = Conn::open(tracker.v4, Some(ip)).ok()?;
-        match c.request(&scrape_req(&[*h], ""), 3000).ok().and_then(|x| classify(&x.body).ok()) {
+        match c.request(&scrape_req(&[*h], ""), 15_000).ok().and_then(|x| classify(&x.body).ok()) {
             Some(Reply::Scrape(f)) if f.len() == 1 => Some(f[0].1 + f[0].2),
             _ => None,
         }
@@ -830,9 +830,9 @@ fn scenario_corpus(args: &Args, report: &mut Report) {
     // known state first
     for k in 0..3 {
         let mut c = Conn::open(tracker.v4, Some(ip)).unwrap();
-        let _ = c.request(&announce_req(&h, 100 + k, "started", k as u64 % 2, Some(0), "", ""), 3000);
+        let _ = c.request(&announce_req(&h, 100 + k, "started", k as u64 % 2, Some(0), "", ""), 15_000);
     }
-    let n = args.usize("cases", 3000);
+    let n = args.usize("cases", 15_000);
     let base = announce_req(&h, 999, "started", 1, Some(5), "", "");
     for i in 0..n {
         let mut b = match r.below(6) {
@@ -884,7 +884,7 @@ fn scenario_corpus(args: &Args, report: &mut Report) {
     // liveness + state: the three peers are still there (port 999 may have joined through valid mutations)
     let mut c = Conn::open(tracker.v4, Some(ip)).unwrap();
     report.eval();
-    match c.request(&scrape_req(&[h], ""), 4000).map_err(|e| format!("{:?}", e)).and_then(|x| classify(&x.body)) {
+    match c.request(&scrape_req(&[h], ""), 15_000).map_err(|e| format!("{:?}", e)).and_then(|x| classify(&x.body)) {
         Ok(Reply::Scrape(f)) if f.len() == 1 && f[0].1 == 2 && (f[0].2 == 1 || f[0].2 == 2) => {}
         other => report.violation("http.live.state_changed_or_dead_after_hostile_input", "crash", format!("after {} hostile inputs the scrape of the known torrent gives {:?}", n, other), case.clone()),
     }
